@@ -27,6 +27,9 @@ TOKENS = [
     "N2NENE", "E2NENW", "NORTH HALF OF THE SOUTHWEST QUARTER", "Quarter", "Half",
     # acreages
     "Lots 1(38.00), 2(39.10), 1(38.00)", "Lot 2(38.29), Lot 2(38.29)", "L1(40)", "(38.00)", "[40.1]", "Lots 1 - 3(40)", "1(38.00)", "2 (39.1)",
+    # empty acreage brackets; a section colon glued to what follows it
+    "Lot 1()", "L2[]", "Lots 1(38.29), 2[]", "L1() thru L4", "()", "[]", "Lot 3( )", "Lots 1 - 3()",
+    "Sec 14:T154N-R97W", "Sec 15:T155N-R97W", "Sec 1, 2 and 3:T2S-R2E", "Sec 14:NE/4", "Section 14:Lot 1", "T154N-R97W:Sec 14",
     # connectives / punctuation
     ":", ",", ";", ".", "-", "–", "—", "and", "&", "through", "thru", "to", "of", "of the", "in", "all", "the", "/", "(", ")", "[", "]",
     # numbers
@@ -41,6 +44,7 @@ ALPHABET = ("abcdefghijklmnopqrstuvwxyzABCDEFGHIJKLMNOPQRSTUVWXYZ" + "0123456789
             + "½¼§–—°é中")
 
 _SPACING = st.sampled_from([" ", " ", " ", "", "\n", ", ", "  "])
+_TIGHT = st.sampled_from(["", "", "", " ", ",", ":", ";"])          # tokens glued together (no white space to separate them)
 
 
 def _join(t):
@@ -54,7 +58,8 @@ def _join(t):
 
 
 TOKEN_SOUP = st.tuples(st.lists(st.sampled_from(TOKENS), min_size=0, max_size=14),
-                       st.lists(_SPACING, min_size=1, max_size=14)).map(_join)
+                       st.one_of(st.lists(_SPACING, min_size=1, max_size=14), st.lists(_SPACING, min_size=1, max_size=14),
+                                 st.lists(_SPACING, min_size=1, max_size=14), st.lists(_TIGHT, min_size=1, max_size=14))).map(_join)
 RAW_TEXT = st.text(alphabet=ALPHABET, max_size=60)
 
 
